@@ -1,6 +1,6 @@
 (* Runner entry points: one number per executable model function.  The Python
    harness reads the "(* ENTRY n name *)" comments to build its name table. *)
-From HX Require Import Model.Base Model.Cell Model.EmitterEntry Model.Serial Model.DateFns Model.Comparator.
+From HX Require Import Model.Base Model.Cell Model.EmitterEntry Model.Serial Model.DateFns Model.Comparator Model.Value Model.Logic.
 
 Definition dispatch (e : Z) (a : list Z) : list Z :=
   match e with
@@ -20,5 +20,6 @@ Definition dispatch (e : Z) (a : list Z) : list Z :=
   | 1406 => e_EDATE a      (* ENTRY 1406 EDATE *)
   | 1407 => e_serial_fields a (* ENTRY 1407 serial_fields *)
   | 701 => e_compare a      (* ENTRY 701 compare *)
+  | 1201 => e_logic a       (* ENTRY 1201 logic *)
   | _ => [-999]
   end.
